@@ -21,6 +21,7 @@ import (
 	"time"
 
 	"github.com/stretchr/testify/assert"
+	"google.golang.org/grpc/codes"
 	"google.golang.org/grpc/status"
 	"google.golang.org/protobuf/encoding/protojson"
 	pb "google.golang.org/protobuf/proto"
@@ -1448,6 +1449,44 @@ func TestLeaderController_GetSequenceUpdates(t *testing.T) {
 	// When the context is canceled the method should return
 	cancel()
 	assert.NoError(t, waiter.Close())
+
+	assert.NoError(t, lc.Close())
+	assert.NoError(t, kvFactory.Close())
+	assert.NoError(t, walFactory.Close())
+}
+
+func TestLeaderController_InvalidSequenceKeysAreNotLogged(t *testing.T) {
+	var shard int64 = 1
+
+	kvFactory, err := kv.NewPebbleKVFactory(testKVOptions)
+	assert.NoError(t, err)
+	walFactory := newTestWalFactory(t)
+
+	lc, err := NewLeaderController(Config{}, constant.DefaultNamespace, shard, newMockRpcClient(), walFactory, kvFactory)
+	assert.NoError(t, err)
+	_, err = lc.NewTerm(&proto.NewTermRequest{Shard: shard, Term: 1})
+	assert.NoError(t, err)
+	_, err = lc.BecomeLeader(context.Background(), &proto.BecomeLeaderRequest{Shard: shard, Term: 1, ReplicationFactor: 1})
+	assert.NoError(t, err)
+
+	// These requests can never be applied: they must be refused before they are appended to the log
+	for _, put := range []*proto.PutRequest{
+		{Key: "a", Value: []byte("v"), SequenceKeyDelta: []uint64{1}},
+		{Key: "a", Value: []byte("v"), PartitionKey: pb.String("p"), SequenceKeyDelta: []uint64{0, 1}},
+	} {
+		res, err := lc.WriteBlock(context.Background(), &proto.WriteRequest{Shard: &shard, Puts: []*proto.PutRequest{put}})
+		assert.Nil(t, res)
+		assert.Equal(t, codes.InvalidArgument, status.Code(err))
+	}
+
+	st, err := lc.GetStatus(&proto.GetStatusRequest{Shard: shard})
+	assert.NoError(t, err)
+	assert.EqualValues(t, wal.InvalidOffset, st.HeadOffset)
+
+	res, err := lc.WriteBlock(context.Background(), &proto.WriteRequest{Shard: &shard, Puts: []*proto.PutRequest{
+		{Key: "a", Value: []byte("v"), PartitionKey: pb.String("p"), SequenceKeyDelta: []uint64{1}}}})
+	assert.NoError(t, err)
+	assert.Equal(t, proto.Status_OK, res.Puts[0].Status)
 
 	assert.NoError(t, lc.Close())
 	assert.NoError(t, kvFactory.Close())
